@@ -12,6 +12,12 @@ struct OcpBase {
     length_t nh = 1, nc = 0;
     uint32_t pv = 0;
     bool rwork = false, swork = false;
+    int epoch     = 0;     // stamp of the last mutation applied to this object
+    bool has_Dov  = false; // `mutate D lb ub`: get_D returns this box
+    Box Dov{0};
+    bool has_lN   = false; // `mutate const v`: eval_l_N returns the constant v
+    real_t lNconst = 0;
+    void L(const char *s) const { LOG(s); g_eps.push_back(epoch); }
     length_t get_N() const { return C20_OCP_N; }
     length_t get_nx() const { return C20_OCP_NX; }
     length_t get_nu() const { return C20_OCP_NU; }
@@ -27,36 +33,36 @@ struct OP : OcpBase {
     static constexpr bool prv(int b) { return (PROV >> b) & 1; }
     static constexpr length_t NX = C20_OCP_NX, NU = C20_OCP_NU;
     bool val(int b) const { return (pv >> b) & 1; }
-    void eval_proj_diff_g(crvec z, rvec e) const { LOG("eval_proj_diff_g"); c20_proj_diff_g(z.size(), z.data(), e.data()); }
-    void eval_proj_multipliers(rvec y, real_t M) const { LOG("eval_proj_multipliers"); c20_proj_multipliers(y.size(), y.data(), M); }
-    void get_U(Box &U) const { LOG("get_U"); c20o_box(NU, 61.0, U.lowerbound.data(), U.upperbound.data()); }
-    void get_D(Box &D) const requires(has(O_GET_D)) { LOG("get_D"); c20o_box(nc, 62.0, D.lowerbound.data(), D.upperbound.data()); }
-    void get_D_N(Box &D) const requires(has(O_GET_D_N)) { LOG("get_D_N"); c20o_box(nc, 63.0, D.lowerbound.data(), D.upperbound.data()); }
-    void get_x_init(rvec x) const { LOG("get_x_init"); c20o_x_init(NX, x.data()); }
-    void eval_f(index_t t, crvec x, crvec u, rvec o) const { LOG("eval_f"); c20o_f(NX, NU, t, x.data(), u.data(), o.data()); }
-    void eval_jac_f(index_t t, crvec x, crvec u, rmat J) const { LOG("eval_jac_f"); c20o_jac_f(NX, NU, t, x.data(), u.data(), J.data()); }
-    void eval_grad_f_prod(index_t t, crvec x, crvec u, crvec p, rvec o) const { LOG("eval_grad_f_prod"); c20o_grad_f_prod(NX, NU, t, x.data(), u.data(), p.data(), o.data()); }
-    void eval_h(index_t t, crvec x, crvec u, rvec h) const requires(has(O_H)) { LOG("eval_h"); c20o_h(NX, NU, nh, t, x.data(), u.data(), h.data()); }
-    void eval_h_N(crvec x, rvec h) const requires(has(O_H_N)) { LOG("eval_h_N"); c20o_h_N(NX, nh, x.data(), h.data()); }
-    real_t eval_l(index_t t, crvec h) const { LOG("eval_l"); return c20o_l(nh, t, h.data()); }
-    real_t eval_l_N(crvec h) const { LOG("eval_l_N"); return c20o_l_N(nh, h.data()); }
-    void eval_qr(index_t t, crvec xu, crvec h, rvec qr) const { LOG("eval_qr"); c20o_qr(NX, NU, nh, t, xu.data(), h.data(), qr.data()); }
-    void eval_q_N(crvec x, crvec h, rvec q) const { LOG("eval_q_N"); c20o_q_N(NX, nh, x.data(), h.data(), q.data()); }
-    void eval_add_Q(index_t t, crvec xu, crvec h, rmat Q) const { LOG("eval_add_Q"); c20o_add_Q(NX, NU, nh, t, xu.data(), h.data(), Q.data()); }
-    void eval_add_Q_N(crvec x, crvec h, rmat Q) const requires(has(O_ADD_Q_N)) { LOG("eval_add_Q_N"); c20o_add_Q_N(NX, nh, x.data(), h.data(), Q.data()); }
-    void eval_add_R_masked(index_t t, crvec xu, crvec h, crindexvec mask, rmat R, rvec work) const { LOG("eval_add_R_masked"); c20o_add_R_masked(NX, NU, nh, t, xu.data(), h.data(), mask.data(), NU, R.data(), work.data(), work.size()); }
-    void eval_add_S_masked(index_t t, crvec xu, crvec h, crindexvec mask, rmat S, rvec work) const { LOG("eval_add_S_masked"); c20o_add_S_masked(NX, NU, nh, t, xu.data(), h.data(), mask.data(), NU, S.data(), work.data(), work.size()); }
-    void eval_add_R_prod_masked(index_t t, crvec xu, crvec h, crindexvec mJ, crindexvec mK, crvec v, rvec out, rvec work) const requires(has(O_R_PROD)) { LOG("eval_add_R_prod_masked"); c20o_add_R_prod_masked(NX, NU, nh, t, xu.data(), h.data(), mJ.data(), NU, mK.data(), 1, v.data(), out.data(), work.data(), work.size()); }
-    void eval_add_S_prod_masked(index_t t, crvec xu, crvec h, crindexvec mK, crvec v, rvec out, rvec work) const requires(has(O_S_PROD)) { LOG("eval_add_S_prod_masked"); c20o_add_S_prod_masked(NX, NU, nh, t, xu.data(), h.data(), mK.data(), 1, v.data(), out.data(), work.data(), work.size()); }
-    length_t get_R_work_size() const requires(has(O_R_WORK)) { LOG("get_R_work_size"); return C20_OCP_RWORK; }
-    length_t get_S_work_size() const requires(has(O_S_WORK)) { LOG("get_S_work_size"); return C20_OCP_SWORK; }
-    void eval_constr(index_t t, crvec x, rvec c) const requires(has(O_CONSTR)) { LOG("eval_constr"); c20o_constr(NX, nc, t, x.data(), c.data()); }
-    void eval_constr_N(crvec x, rvec c) const requires(has(O_CONSTR_N)) { LOG("eval_constr_N"); c20o_constr_N(NX, nc, x.data(), c.data()); }
-    void eval_grad_constr_prod(index_t t, crvec x, crvec p, rvec o) const requires(has(O_GCP)) { LOG("eval_grad_constr_prod"); c20o_grad_constr_prod(NX, nc, t, x.data(), p.data(), o.data()); }
-    void eval_grad_constr_prod_N(crvec x, crvec p, rvec o) const requires(has(O_GCP_N)) { LOG("eval_grad_constr_prod_N"); c20o_grad_constr_prod_N(NX, nc, x.data(), p.data(), o.data()); }
-    void eval_add_gn_hess_constr(index_t t, crvec x, crvec M, rmat o) const requires(has(O_GN)) { LOG("eval_add_gn_hess_constr"); c20o_add_gn_hess_constr(NX, nc, t, x.data(), M.data(), o.data()); }
-    void eval_add_gn_hess_constr_N(crvec x, crvec M, rmat o) const requires(has(O_GN_N)) { LOG("eval_add_gn_hess_constr_N"); c20o_add_gn_hess_constr_N(NX, nc, x.data(), M.data(), o.data()); }
-    void check() const { LOG("check"); }
+    void eval_proj_diff_g(crvec z, rvec e) const { L("eval_proj_diff_g"); c20_proj_diff_g(z.size(), z.data(), e.data()); }
+    void eval_proj_multipliers(rvec y, real_t M) const { L("eval_proj_multipliers"); c20_proj_multipliers(y.size(), y.data(), M); }
+    void get_U(Box &U) const { L("get_U"); c20o_box(NU, 61.0, U.lowerbound.data(), U.upperbound.data()); }
+    void get_D(Box &D) const requires(has(O_GET_D)) { L("get_D"); if (has_Dov) { D = Dov; return; } c20o_box(nc, 62.0, D.lowerbound.data(), D.upperbound.data()); }
+    void get_D_N(Box &D) const requires(has(O_GET_D_N)) { L("get_D_N"); c20o_box(nc, 63.0, D.lowerbound.data(), D.upperbound.data()); }
+    void get_x_init(rvec x) const { L("get_x_init"); c20o_x_init(NX, x.data()); }
+    void eval_f(index_t t, crvec x, crvec u, rvec o) const { L("eval_f"); c20o_f(NX, NU, t, x.data(), u.data(), o.data()); }
+    void eval_jac_f(index_t t, crvec x, crvec u, rmat J) const { L("eval_jac_f"); c20o_jac_f(NX, NU, t, x.data(), u.data(), J.data()); }
+    void eval_grad_f_prod(index_t t, crvec x, crvec u, crvec p, rvec o) const { L("eval_grad_f_prod"); c20o_grad_f_prod(NX, NU, t, x.data(), u.data(), p.data(), o.data()); }
+    void eval_h(index_t t, crvec x, crvec u, rvec h) const requires(has(O_H)) { L("eval_h"); c20o_h(NX, NU, nh, t, x.data(), u.data(), h.data()); }
+    void eval_h_N(crvec x, rvec h) const requires(has(O_H_N)) { L("eval_h_N"); c20o_h_N(NX, nh, x.data(), h.data()); }
+    real_t eval_l(index_t t, crvec h) const { L("eval_l"); return c20o_l(nh, t, h.data()); }
+    real_t eval_l_N(crvec h) const { L("eval_l_N"); if (has_lN) return lNconst; return c20o_l_N(nh, h.data()); }
+    void eval_qr(index_t t, crvec xu, crvec h, rvec qr) const { L("eval_qr"); c20o_qr(NX, NU, nh, t, xu.data(), h.data(), qr.data()); }
+    void eval_q_N(crvec x, crvec h, rvec q) const { L("eval_q_N"); c20o_q_N(NX, nh, x.data(), h.data(), q.data()); }
+    void eval_add_Q(index_t t, crvec xu, crvec h, rmat Q) const { L("eval_add_Q"); c20o_add_Q(NX, NU, nh, t, xu.data(), h.data(), Q.data()); }
+    void eval_add_Q_N(crvec x, crvec h, rmat Q) const requires(has(O_ADD_Q_N)) { L("eval_add_Q_N"); c20o_add_Q_N(NX, nh, x.data(), h.data(), Q.data()); }
+    void eval_add_R_masked(index_t t, crvec xu, crvec h, crindexvec mask, rmat R, rvec work) const { L("eval_add_R_masked"); c20o_add_R_masked(NX, NU, nh, t, xu.data(), h.data(), mask.data(), NU, R.data(), work.data(), work.size()); }
+    void eval_add_S_masked(index_t t, crvec xu, crvec h, crindexvec mask, rmat S, rvec work) const { L("eval_add_S_masked"); c20o_add_S_masked(NX, NU, nh, t, xu.data(), h.data(), mask.data(), NU, S.data(), work.data(), work.size()); }
+    void eval_add_R_prod_masked(index_t t, crvec xu, crvec h, crindexvec mJ, crindexvec mK, crvec v, rvec out, rvec work) const requires(has(O_R_PROD)) { L("eval_add_R_prod_masked"); c20o_add_R_prod_masked(NX, NU, nh, t, xu.data(), h.data(), mJ.data(), NU, mK.data(), 1, v.data(), out.data(), work.data(), work.size()); }
+    void eval_add_S_prod_masked(index_t t, crvec xu, crvec h, crindexvec mK, crvec v, rvec out, rvec work) const requires(has(O_S_PROD)) { L("eval_add_S_prod_masked"); c20o_add_S_prod_masked(NX, NU, nh, t, xu.data(), h.data(), mK.data(), 1, v.data(), out.data(), work.data(), work.size()); }
+    length_t get_R_work_size() const requires(has(O_R_WORK)) { L("get_R_work_size"); return C20_OCP_RWORK; }
+    length_t get_S_work_size() const requires(has(O_S_WORK)) { L("get_S_work_size"); return C20_OCP_SWORK; }
+    void eval_constr(index_t t, crvec x, rvec c) const requires(has(O_CONSTR)) { L("eval_constr"); c20o_constr(NX, nc, t, x.data(), c.data()); }
+    void eval_constr_N(crvec x, rvec c) const requires(has(O_CONSTR_N)) { L("eval_constr_N"); c20o_constr_N(NX, nc, x.data(), c.data()); }
+    void eval_grad_constr_prod(index_t t, crvec x, crvec p, rvec o) const requires(has(O_GCP)) { L("eval_grad_constr_prod"); c20o_grad_constr_prod(NX, nc, t, x.data(), p.data(), o.data()); }
+    void eval_grad_constr_prod_N(crvec x, crvec p, rvec o) const requires(has(O_GCP_N)) { L("eval_grad_constr_prod_N"); c20o_grad_constr_prod_N(NX, nc, x.data(), p.data(), o.data()); }
+    void eval_add_gn_hess_constr(index_t t, crvec x, crvec M, rmat o) const requires(has(O_GN)) { L("eval_add_gn_hess_constr"); c20o_add_gn_hess_constr(NX, nc, t, x.data(), M.data(), o.data()); }
+    void eval_add_gn_hess_constr_N(crvec x, crvec M, rmat o) const requires(has(O_GN_N)) { L("eval_add_gn_hess_constr_N"); c20o_add_gn_hess_constr_N(NX, nc, x.data(), M.data(), o.data()); }
+    void check() const { L("check"); }
 #define OPV(name, bit) bool provides_##name() const requires(prv(bit)) { return val(bit); }
     OPV(get_D, O_GET_D) OPV(get_D_N, O_GET_D_N) OPV(eval_add_Q_N, O_ADD_Q_N) OPV(eval_add_R_prod_masked, O_R_PROD)
     OPV(eval_add_S_prod_masked, O_S_PROD) OPV(get_R_work_size, O_R_WORK) OPV(get_S_work_size, O_S_WORK)
@@ -189,17 +195,6 @@ bool ocp_null_call(const TEO &te, const std::string &fn) {
 
 std::string fmtm(const mat &M) { return fmtv(M.reshaped()); }
 
-/// a vector over all stages (N·nc + nc_N entries) from one stage's worth of data: stage t gets M scaled,
-/// reflected and shifted, so that different stages fall inside and on either side of the plug-in's bounds (±62)
-vec all_stages(const TEO &te, crvec M) {
-    const length_t N = te.get_N(), nc = te.get_nc(), ncN = te.get_nc_N();
-    vec z(N * nc + ncN);
-    for (length_t t = 0; t <= N; ++t)
-        for (length_t i = 0; i < (t < N ? nc : ncN); ++i)
-            z(t * nc + i) = (t % 2 ? -25 : 25) * M(i % std::max<length_t>(M.size(), 1)) + real_t(t) * 20;
-    return z;
-}
-
 Res call_ocp(const TEO &te, const std::string &fn, const Args &A, length_t rw, length_t sw) {
     const length_t nx = te.get_nx(), nu = te.get_nu(), nh = te.get_nh(), nc = te.get_nc();
     const crvec x = A.x, u = A.y, h = A.S, p = A.v, M = A.e5;
@@ -209,8 +204,9 @@ Res call_ocp(const TEO &te, const std::string &fn, const Args &A, length_t rw, l
     return guarded([&]() -> std::string {
         std::string s;
         const index_t t = A.i;
-        if (fn == "eval_proj_diff_g") { vec z = all_stages(te, M), e = buf(z.size()); te.eval_proj_diff_g(z, e); s = fmtv(e); }
-        else if (fn == "eval_proj_multipliers") { vec y = all_stages(te, M); te.eval_proj_multipliers(y, A.a); s = fmtv(y); }
+        // A.zf: one entry per constraint of every stage, N·nc + nc_N in all (from the op line)
+        if (fn == "eval_proj_diff_g") { vec e = buf(A.zf.size()); te.eval_proj_diff_g(A.zf, e); s = fmtv(e); }
+        else if (fn == "eval_proj_multipliers") { vec y = A.zf; te.eval_proj_multipliers(y, A.a); s = fmtv(y); }
         else if (fn == "get_U") { Box B = Box::NaN(nu); te.get_U(B); s = fmt_box(B); }
         else if (fn == "get_D") { Box B = Box::NaN(nc); te.get_D(B); s = fmt_box(B); }
         else if (fn == "get_D_N") { Box B = Box::NaN(nc); te.get_D_N(B); s = fmt_box(B); }
